@@ -272,6 +272,9 @@ func generated(a lib.Args) []RoundSpec {
 		p := genProto(r.Fork(), pgs[i%len(pgs)], thorough)
 		out = append(out, RoundSpec{Kind: "proto", Proto: &p})
 	}
+	// the rounds are independent: run them in a seeded random order, so that on a loaded machine the
+	// time budget (runBudget) drops a share of EVERY kind of round instead of the kinds generated last
+	lib.Shuffle(r, out)
 	return out
 }
 
@@ -495,5 +498,5 @@ func runBudget(tier string) time.Duration {
 	if tier == "thorough" {
 		return 1800 * time.Second
 	}
-	return 85 * time.Second
+	return 100 * time.Second
 }
